@@ -117,23 +117,7 @@ def points(g, seed, tier):
     return pts
 
 
-def _cube_roots(a, q=ref.q):
-    """all cube roots of a in Fq (q - 1 = 9 m, 3 does not divide m), [] if a is not a cube"""
-    if a % q == 0:
-        return [0]
-    if pow(a, (q - 1) // 3, q) != 1:
-        return []
-    m = (q - 1) // 9
-    k = next(k for k in range(3) if (1 + k * m) % 3 == 0)
-    y0 = pow(a, (1 + k * m) // 3, q)                    # y0^3 = a * (a^m)^k, and a^m has order 1 or 3
-    n = next(n for n in range(2, 200) if pow(n, (q - 1) // 3, q) != 1)
-    z9 = pow(n, m, q)                                   # a primitive 9th root of unity
-    for j in range(9):
-        y = y0 * pow(z9, j, q) % q
-        if pow(y, 3, q) == a % q:
-            z3 = pow(z9, 3, q)
-            return [y, y * z3 % q, y * z3 * z3 % q]
-    raise AssertionError("cube root not found")
+_cube_roots = alpha.cube_roots_fq
 
 
 @functools.lru_cache(maxsize=None)
